@@ -193,7 +193,7 @@ func checkStep(res *result, tc textCase, from, to int, class, msg string) {
 }
 
 // evalText runs the sampled configurations on one text.
-func evalText(r *gen.Rand, tc textCase, memo map[int]bool) result {
+func evalText(r *gen.Rand, tc textCase) result {
 	res := result{}
 	type ev struct {
 		ok         bool
@@ -207,9 +207,6 @@ func evalText(r *gen.Rand, tc textCase, memo map[int]bool) result {
 		ok, c, m := accept(tc.text, mask, false)
 		e := ev{ok, c, m}
 		cache[mask] = e
-		if memo != nil {
-			memo[mask] = ok
-		}
 		return e
 	}
 	pattern := ""
@@ -326,7 +323,7 @@ func run(t *T) {
 	}
 	sort.Strings(paths)
 
-	n := t.Budget(2500)
+	n := t.Budget(6000)
 	total := n + len(paths)
 	rs := make([]*gen.Rand, total)
 	for i := range rs {
@@ -357,7 +354,7 @@ func run(t *T) {
 					tc = makeText(r, i-len(paths), cp)
 				}
 				texts[i] = tc
-				results[i] = evalText(r, tc, nil)
+				results[i] = evalText(r, tc)
 			}
 		}()
 	}
@@ -379,17 +376,16 @@ func run(t *T) {
 func exhaustive(t *T, texts []textCase, results []result) {
 	var pick []int
 	seen := map[string]bool{}
+	perKind := map[string]int{}
 	for i, r := range results {
-		if r.gainMask != 0 && len(texts[i].text) < 6000 {
+		if r.gainMask != 0 && len(texts[i].text) < 6000 && perKind[texts[i].kind] < 5 && len(pick) < 34 {
 			k := fmt.Sprintf("%s/%d", texts[i].kind, r.gainMask)
 			if !seen[k] {
 				seen[k] = true
+				perKind[texts[i].kind]++
 				pick = append(pick, i)
 			}
 		}
-	}
-	if len(pick) > 32 {
-		pick = pick[:32]
 	}
 	for i, r := range results { // a few texts accepted under {} as well
 		if len(pick) >= 40 {
